@@ -1,0 +1,285 @@
+//! Verification hooks (compiled only with `--cfg tcss_verif`; see /verif/DESIGN.md).
+//!
+//! With the cfg on and `$TCSS_TRACE_DIR` set, every call of a protocol operation on `Server`
+//! appends one self-contained ndjson event {pre-state, request, response, post-state} to a
+//! file in that directory.  The events of the repository's own test suite are then validated
+//! against the TLA+ specification.  Nothing here changes behaviour.
+use crate::server::{AddVersionResult, GetVersionResult, Server, SnapshotUrgency};
+use crate::{ClientId, ServerError, VersionId};
+use chrono::Utc;
+use std::cell::Cell;
+use std::collections::HashMap;
+use std::io::Write;
+use uuid::Uuid;
+
+thread_local! {
+    static IN_HOOK: Cell<bool> = const { Cell::new(false) };
+}
+
+/// true while the hook itself is calling into `Server`, and always when recording is off
+/// (`$TCSS_TRACE_DIR` unset): the guarded blocks in `Server` then fall through to the normal code
+pub(crate) fn in_hook() -> bool {
+    static ON: std::sync::OnceLock<bool> = std::sync::OnceLock::new();
+    !*ON.get_or_init(|| std::env::var_os("TCSS_TRACE_DIR").is_some()) || IN_HOOK.with(|f| f.get())
+}
+
+struct Guard;
+impl Guard {
+    fn enter() -> Guard {
+        IN_HOOK.with(|f| f.set(true));
+        Guard
+    }
+}
+impl Drop for Guard {
+    fn drop(&mut self) {
+        IN_HOOK.with(|f| f.set(false));
+    }
+}
+
+/// ids and payloads renamed by first appearance inside one event
+#[derive(Default)]
+struct Names {
+    ids: HashMap<Uuid, i64>,
+    toks: HashMap<Vec<u8>, i64>,
+}
+impl Names {
+    fn id(&mut self, u: Uuid) -> i64 {
+        if u.is_nil() {
+            return 0;
+        }
+        let n = self.ids.len() as i64 + 1;
+        *self.ids.entry(u).or_insert(n)
+    }
+    fn tok(&mut self, b: &[u8]) -> i64 {
+        let n = self.toks.len() as i64 + 1;
+        *self.toks.entry(b.to_vec()).or_insert(n)
+    }
+}
+
+/// the state of one client as reachable through the storage API: the client record, the chain
+/// walked back from the latest version, and the children found by parent along it
+fn dump(server: &Server, client: ClientId, names: &mut Names, extra: &[Uuid]) -> String {
+    let mut out = String::new();
+    let mut txn = match server.txn(client) {
+        Ok(t) => t,
+        Err(_) => return "{\"e\":false,\"l\":0,\"v\":[],\"s\":{\"has\":false,\"vid\":0,\"tok\":0,\"since\":0,\"day\":0},\"err\":true}".into(),
+    };
+    let cl = txn.get_client().ok().flatten();
+    let mut versions: Vec<(i64, i64, i64)> = vec![];
+    let mut seen: Vec<Uuid> = vec![];
+    let mut probe: Vec<Uuid> = extra.to_vec();
+    probe.push(Uuid::nil());
+    if let Some(c) = &cl {
+        probe.push(c.latest_version_id);
+        if let Some(s) = &c.snapshot {
+            probe.push(s.version_id);
+        }
+    }
+    let mut steps = 0;
+    while let Some(id) = probe.pop() {
+        steps += 1;
+        if steps > 400 || seen.contains(&id) {
+            continue;
+        }
+        seen.push(id);
+        if let Ok(Some(v)) = txn.get_version(id) {
+            let rec = (
+                names.id(v.version_id),
+                names.id(v.parent_version_id),
+                names.tok(&v.history_segment),
+            );
+            if !versions.contains(&rec) {
+                versions.push(rec);
+            }
+            probe.push(v.parent_version_id);
+        }
+        if let Ok(Some(v)) = txn.get_version_by_parent(id) {
+            let rec = (
+                names.id(v.version_id),
+                names.id(v.parent_version_id),
+                names.tok(&v.history_segment),
+            );
+            if !versions.contains(&rec) {
+                versions.push(rec);
+            }
+            probe.push(v.version_id);
+        }
+    }
+    versions.sort();
+    out.push_str(&format!(
+        "{{\"e\":{},\"l\":{},\"v\":[",
+        cl.is_some(),
+        cl.as_ref()
+            .map(|c| names.id(c.latest_version_id))
+            .unwrap_or(0)
+    ));
+    for (i, v) in versions.iter().enumerate() {
+        if i > 0 {
+            out.push(',');
+        }
+        out.push_str(&format!(
+            "{{\"vid\":{},\"parent\":{},\"tok\":{}}}",
+            v.0, v.1, v.2
+        ));
+    }
+    out.push_str("],\"s\":");
+    match cl.and_then(|c| c.snapshot) {
+        Some(s) => {
+            let tok = match txn.get_snapshot_data(s.version_id) {
+                Ok(Some(d)) => names.tok(&d),
+                _ => -1,
+            };
+            // "day" is minus the age in whole days, so that the event's own day is 0
+            let age = (Utc::now() - s.timestamp).num_days();
+            out.push_str(&format!(
+                "{{\"has\":true,\"vid\":{},\"tok\":{},\"since\":{},\"day\":{}}}",
+                names.id(s.version_id),
+                tok,
+                s.versions_since,
+                -age
+            ));
+        }
+        None => out.push_str("{\"has\":false,\"vid\":0,\"tok\":0,\"since\":0,\"day\":0}"),
+    }
+    out.push_str(",\"err\":false}");
+    out
+}
+
+fn emit(server: &Server, op: &str, arg: i64, tok: i64, resp: String, pre: String, post: String) {
+    let dir = match std::env::var("TCSS_TRACE_DIR") {
+        Ok(d) => d,
+        Err(_) => return,
+    };
+    let (days, versions) = server.tcss_config();
+    let line = format!(
+        "{{\"ev\":\"Step\",\"req\":{{\"op\":\"{op}\",\"c\":1,\"arg\":{arg},\"tok\":{tok},\"lvl\":\"lib\"}},\"resp\":{resp},\"pre\":{pre},\"post\":{post},\"cfg\":{{\"days\":{days},\"versions\":{versions}}},\"test\":\"{}\"}}\n",
+        std::thread::current().name().unwrap_or("?").replace('"', "")
+    );
+    let path = format!("{}/trace-{}.ndjson", dir, std::process::id());
+    if let Ok(mut f) = std::fs::OpenOptions::new()
+        .create(true)
+        .append(true)
+        .open(path)
+    {
+        let _ = f.write_all(line.as_bytes());
+    }
+}
+
+fn resp_json(kind: &str, vid: i64, parent: i64, tok: i64, urg: &str) -> String {
+    format!(
+        "{{\"kind\":\"{kind}\",\"vid\":{vid},\"parent\":{parent},\"tok\":{tok},\"urg\":\"{urg}\"}}"
+    )
+}
+
+fn err_kind(e: &ServerError) -> &'static str {
+    match e {
+        ServerError::NoSuchClient => "nosuchclient",
+        ServerError::Other(_) => "error",
+    }
+}
+
+pub(crate) fn add_version(
+    server: &Server,
+    client_id: ClientId,
+    parent: VersionId,
+    segment: Vec<u8>,
+) -> Result<(AddVersionResult, SnapshotUrgency), ServerError> {
+    let _g = Guard::enter();
+    let mut n = Names::default();
+    let pre = dump(server, client_id, &mut n, &[parent]);
+    let (arg, tok) = (n.id(parent), n.tok(&segment));
+    let r = server.add_version(client_id, parent, segment);
+    let resp = match &r {
+        Ok((AddVersionResult::Ok(v), u)) => resp_json(
+            "ok",
+            n.id(*v),
+            0,
+            0,
+            match u {
+                SnapshotUrgency::None => "none",
+                SnapshotUrgency::Low => "low",
+                SnapshotUrgency::High => "high",
+            },
+        ),
+        Ok((AddVersionResult::ExpectedParentVersion(v), _)) => {
+            resp_json("conflict", n.id(*v), 0, 0, "")
+        }
+        Err(e) => resp_json(err_kind(e), 0, 0, 0, ""),
+    };
+    let extra: Vec<Uuid> = match &r {
+        Ok((AddVersionResult::Ok(v), _)) => vec![parent, *v],
+        _ => vec![parent],
+    };
+    let post = dump(server, client_id, &mut n, &extra);
+    emit(server, "AddVersion", arg, tok, resp, pre, post);
+    r
+}
+
+pub(crate) fn get_child_version(
+    server: &Server,
+    client_id: ClientId,
+    parent: VersionId,
+) -> Result<GetVersionResult, ServerError> {
+    let _g = Guard::enter();
+    let mut n = Names::default();
+    let pre = dump(server, client_id, &mut n, &[parent]);
+    let arg = n.id(parent);
+    let r = server.get_child_version(client_id, parent);
+    let resp = match &r {
+        Ok(GetVersionResult::Success {
+            version_id,
+            parent_version_id,
+            history_segment,
+        }) => resp_json(
+            "found",
+            n.id(*version_id),
+            n.id(*parent_version_id),
+            n.tok(history_segment),
+            "",
+        ),
+        Ok(GetVersionResult::NotFound) => resp_json("nf", 0, 0, 0, ""),
+        Ok(GetVersionResult::Gone) => resp_json("gone", 0, 0, 0, ""),
+        Err(e) => resp_json(err_kind(e), 0, 0, 0, ""),
+    };
+    let post = dump(server, client_id, &mut n, &[parent]);
+    emit(server, "GetChildVersion", arg, 0, resp, pre, post);
+    r
+}
+
+pub(crate) fn add_snapshot(
+    server: &Server,
+    client_id: ClientId,
+    version: VersionId,
+    data: Vec<u8>,
+) -> Result<(), ServerError> {
+    let _g = Guard::enter();
+    let mut n = Names::default();
+    let pre = dump(server, client_id, &mut n, &[version]);
+    let (arg, tok) = (n.id(version), n.tok(&data));
+    let r = server.add_snapshot(client_id, version, data);
+    let resp = match &r {
+        Ok(()) => resp_json("snapok", 0, 0, 0, ""),
+        Err(e) => resp_json(err_kind(e), 0, 0, 0, ""),
+    };
+    let post = dump(server, client_id, &mut n, &[version]);
+    emit(server, "AddSnapshot", arg, tok, resp, pre, post);
+    r
+}
+
+pub(crate) fn get_snapshot(
+    server: &Server,
+    client_id: ClientId,
+) -> Result<Option<(Uuid, Vec<u8>)>, ServerError> {
+    let _g = Guard::enter();
+    let mut n = Names::default();
+    let pre = dump(server, client_id, &mut n, &[]);
+    let r = server.get_snapshot(client_id);
+    let resp = match &r {
+        Ok(Some((v, d))) => resp_json("snap", n.id(*v), 0, n.tok(d), ""),
+        Ok(None) => resp_json("nf", 0, 0, 0, ""),
+        Err(e) => resp_json(err_kind(e), 0, 0, 0, ""),
+    };
+    let post = dump(server, client_id, &mut n, &[]);
+    emit(server, "GetSnapshot", 0, 0, resp, pre, post);
+    r
+}
